@@ -11,6 +11,8 @@ with `ast` (the parser is built inside main(), so nothing can be read from a liv
 * the per-record steps between `try:` and `finally:` (overrides, rewriter, list mode, multi-timestamp, write), their
   order, the condition under which the rewriter is installed, and that `record_writer.__exit__()` is the `finally`;
 * argparse defaults of --skip / --count / --suffix-length;
+* iter_timestamped_records (base.py): which reserved fields are copied from the original record onto each expanded
+  record;
 * record_stream: the loop over the sources, that records are yielded while the source is read, the `except`
   clauses in order and what each does with the loop (continue / stop / propagate).
 
@@ -631,6 +633,57 @@ def stream_facts():
     return dict(handlers=handlers, yield_per_record=per_record)
 
 
+def expand_facts():
+    """flow/record/base.py iter_timestamped_records: which reserved fields the loop copies from the original record
+    onto every expanded record, between `record = extend_record(ts_record, [record], ...)` and `yield record`."""
+    import flow.record.base as base_mod
+    where = "flow/record/base.py iter_timestamped_records"
+    tree = ast.parse(Path(base_mod.__file__).read_text())
+    fn = None
+    for n in tree.body:
+        if isinstance(n, ast.FunctionDef) and n.name == "iter_timestamped_records":
+            fn = n
+    if fn is None or len(fn.args.args) != 1:
+        raise Unsupported("%s: not found / not one parameter" % where)
+    param = fn.args.args[0].arg
+    loops = [st for st in fn.body if isinstance(st, ast.For)]
+    if len(loops) != 1 or fn.body[-1] is not loops[0] or loops[0].orelse:
+        raise Unsupported("%s: the function does not end with its single for loop" % where)
+    loop = loops[0]
+    # names that hold the original record: the parameter before the loop rebinds it, and `x = <param>` before the loop
+    orig = set()
+    for st in fn.body[:-1]:
+        if isinstance(st, ast.Assign) and len(st.targets) == 1 and isinstance(st.targets[0], ast.Name) \
+                and isinstance(st.value, ast.Name) and st.value.id == param:
+            orig.add(st.targets[0].id)
+    body = loop.body
+    if len(body) < 3:
+        raise Unsupported("%s: loop body too short" % where)
+    ext, yl = body[1], body[-1]
+    if not (isinstance(ext, ast.Assign) and len(ext.targets) == 1 and isinstance(ext.targets[0], ast.Name)
+            and isinstance(ext.value, ast.Call) and _call_name(ext.value) == "extend_record"):
+        raise Unsupported("%s line %d: second statement of the loop is not <rec> = extend_record(...)" % (where, ext.lineno))
+    rn = ext.targets[0].id
+    if not (isinstance(yl, ast.Expr) and isinstance(yl.value, ast.Yield) and isinstance(yl.value.value, ast.Name)
+            and yl.value.value.id == rn):
+        raise Unsupported("%s line %d: the loop does not end with `yield %s`" % (where, yl.lineno, rn))
+    if rn in orig:
+        raise Unsupported("%s: the expanded record rebinds the name that holds the original" % where)
+    copied = []
+    for st in body[2:-1]:
+        ok = (isinstance(st, ast.Assign) and len(st.targets) == 1 and isinstance(st.targets[0], ast.Attribute)
+              and isinstance(st.targets[0].value, ast.Name) and st.targets[0].value.id == rn
+              and isinstance(st.value, ast.Attribute) and isinstance(st.value.value, ast.Name)
+              and st.value.value.id in orig and st.value.attr == st.targets[0].attr
+              and st.targets[0].attr in ("_source", "_classification", "_generated"))
+        if not ok:
+            raise Unsupported("%s line %d: unrecognised statement between extend_record and yield: %s" % (
+                where, st.lineno, ast.unparse(st)[:80]))
+        if st.targets[0].attr not in copied:
+            copied.append(st.targets[0].attr)
+    return copied
+
+
 def gen_rdump():
     import flow.record.tools.rdump as rdump_mod
     where = "flow/record/tools/rdump.py main"
@@ -640,6 +693,7 @@ def gen_rdump():
     d = mf.argparse_defaults()
     r = mf.record_facts()
     s = stream_facts()
+    em = expand_facts()
     for k, v in u["table"] + [("", u["default_uri"])]:
         if not all(32 <= ord(c) < 127 for c in k + v):
             raise Unsupported("%s: non-ASCII mode table entry" % where)
@@ -668,6 +722,7 @@ def gen_rdump():
         ("f_split_scheme", cstr(u["split_scheme"])),
         ("f_split_keys", cpair(cstr(u["split_keys"][0]), cstr(u["split_keys"][1]))),
         ("f_loop_args", clist([cstr(a) for a in r["loop_args"]])),
+        ("f_expand_meta", clist([cstr(a) for a in em])),
     ]
     if d["--skip"] > 1000:
         raise Unsupported("%s: default of --skip is %d" % (where, d["--skip"]))
